@@ -74,6 +74,7 @@ def register(db):
     register_candidates(db)
     register_test(db)
     register_type_converter(db)
+    register_sort_types(db)
     db.add(Contract(
         f"{E}.deserialize", variant="not-an-enum",
         params={"self": f"obj:{E}", "value": "str", "data_type": None}, kwargs=KW,
@@ -196,3 +197,27 @@ def register_type_converter(db):
         properties=["C05"],
         note="MRO lookup of the registry (object, the last entry of every MRO, is never consulted)",
     ))
+
+
+def register_sort_types(db):
+    """ConverterFactory.sort_types: the documented priority of candidate types - int before bool before float before
+    Decimal ... before str - decides the order, whatever order the caller wrote (checked for every ordered pair of the
+    documented primitive types, by evaluating the real function and the real priority table in the engine)."""
+    from pyvc.values import ClassRef, TypeRef
+
+    def cls_ref(mk, base):
+        return ClassRef(CONV, "ConverterFactory")
+
+    ORDER = [("int", TypeRef("int")), ("bool", TypeRef("bool")), ("float", TypeRef("float")), ("Decimal", ClassRef("decimal", "Decimal")),
+             ("QName", ClassRef("xml.etree.ElementTree", "QName")), ("str", TypeRef("str"))]
+    for i in range(len(ORDER)):
+        for j in range(i + 1, len(ORDER)):
+            (na, a), (nb, b) = ORDER[i], ORDER[j]
+            for first, second, tag in ((a, b, f"{na}-{nb}"), (b, a, f"{nb}-{na}")):
+                db.add(Contract(
+                    f"{F}.sort_types", variant=f"pair-{tag}",
+                    params={"cls": cls_ref, "types": (lambda x, y: (lambda mk, base: (x, y)))(first, second)},
+                    ensures=[(f"{na}-is-tried-before-{nb}", "len(result) == 2 and result[0] is lo and result[1] is hi")],
+                    ghost_pre=(lambda lo, hi: (lambda ex, st, env: env.update({"lo": lo, "hi": hi})))(a, b),
+                    raises={}, properties=["C05"],
+                ))
